@@ -1,10 +1,27 @@
 (* C15 - YAML claims with !sd tags mean the same as JSON claims plus those paths. *)
 From Coq Require Import List String Ascii Bool Arith.
 Import ListNotations.
-Require Import SDJ.Json SDJ.Wire SDJ.Model2 SDJ.Yaml SDJ.C15Proofs.
+Require Import SDJ.Json SDJ.Wire SDJ.Model2 SDJ.Yaml SDJ.T1e SDJ.C15Proofs.
 Local Open Scope string_scope.
 
 (* no untagged node is reported: a document without tags yields no path and an unchanged tree *)
 Theorem C15_untagged_yields_nothing : forall y path, tagfree y = true -> collect path y = Ok (y, []).
 Proof. exact collect_tagfree. Qed.
 Print Assumptions C15_untagged_yields_nothing.
+
+(* The main statement. For every well-formed claims value j (objects with strictly sorted string keys) and
+   EVERY set of tagged nodes (marked : path -> bool; tags on mapping keys at any depth - also inside sequences,
+   below tagged keys, in single-entry mappings - and on string sequence items): running the model of
+   parse_yaml on the value tree of that document returns exactly j and exactly the JSON pointers of the
+   tagged nodes (epaths: each tagged node once, nothing else), nested ones before the node enclosing them. *)
+Theorem C15_parse_tagged :
+  forall (marked : list string -> bool) j, jwf j ->
+    parse_yaml_tree (ytree marked [] j) = Ok (j, epaths marked [] j).
+Proof. exact parse_yaml_tagged. Qed.
+Print Assumptions C15_parse_tagged.
+
+Theorem C15_collect_tagged :
+  forall (marked : list string -> bool) j path,
+    collect path (ytree marked path j) = Ok (yplain j, epaths marked path j).
+Proof. exact collect_ytree. Qed.
+Print Assumptions C15_collect_tagged.
